@@ -26,6 +26,10 @@ Lemma quiet_ret {A} (a : A) : quiet (ret a).
 Proof. intros s. split; reflexivity. Qed.
 Lemma quiet_fail {A} : quiet (@fail A).
 Proof. intros s. split; reflexivity. Qed.
+Lemma quiet_diverge {A} : quiet (@diverge A).
+Proof. intros s. split; reflexivity. Qed.
+Lemma quiet_panic {A} : quiet (@panic A).
+Proof. intros s. split; reflexivity. Qed.
 Lemma quiet_get_fs : quiet get_fs.
 Proof. intros s. split; reflexivity. Qed.
 Lemma quiet_get_ks : quiet get_ks.
